@@ -496,6 +496,11 @@ class Families:
                         continue   # result of an overflow-checked addition (the addition is a site of its own)
                     if rv[0] == "Agg":
                         continue   # struct construction in Lexer::new
+                    if rv[0] == "Use" and rv[1][0] in ("C", "M") and len(rv[1][1]) == 1:
+                        # result of an integer addition written as a call (`*p + 1` on a reference): that call is a panic-capable site of its own (PANIC_API)
+                        src = [bl2["t"][1] for bl2 in b["blocks"] if bl2["t"][0] == "call" and bl2["t"][1].get("dest") == [rv[1][1][0]]]
+                        if src and all(re.match(r"^<&?usize as core::ops::arith::Add<.*>>::add$", c.get("f", {}).get("p") or "") for c in src):
+                            continue
                     bad.append((name, st[3] if len(st) > 3 else None))
         self._pos_ok = (not bad and n > 0, "%d writes to Lexer.position, all constants or checked additions" % n if not bad else "unexpected writes to Lexer.position: %s" % bad[:3])
         return self._pos_ok
